@@ -236,6 +236,7 @@ class Model:
                 )
                 for member in self.arglist_control
             ]
+            + [(symbolic_model.dt, Symbol("dt"))]
         )
 
         for a in self.arglist_state:
@@ -418,6 +419,7 @@ class ExtendedKalmanFilter:
                 )
                 for member in self.arglist_control
             ]
+            + [(symbolic_model.dt, Symbol("dt"))]
         )
 
         for a in self.arglist_state:
@@ -452,6 +454,7 @@ class ExtendedKalmanFilter:
                 )
                 for member in self.arglist_control
             ]
+            + [(symbolic_model.dt, Symbol("dt"))]
         )
 
         for idx, symbol in enumerate(self.arglist_state):
@@ -490,6 +493,7 @@ class ExtendedKalmanFilter:
                 )
                 for member in self.arglist_control
             ]
+            + [(symbolic_model.dt, Symbol("dt"))]
         )
 
         for idx, symbol in enumerate(self.arglist_state):
